@@ -8,6 +8,8 @@ import (
 	"bytes"
 	"fmt"
 	"io"
+	"io/ioutil"
+	"math"
 	"reflect"
 )
 
@@ -63,4 +65,17 @@ func ReadMessage(r io.Reader) (msg Message, err error) {
 
 	err = msg.Unmarshal(mr)
 	return
+}
+
+// discardBytes skips the next l bytes of the Reader without allocating memory based on this length.
+func discardBytes(l uint64, r io.Reader) error {
+	if l > math.MaxInt64 {
+		return fmt.Errorf("cannot skip %d bytes, is greater than max int64", l)
+	}
+
+	if n, err := io.CopyN(ioutil.Discard, r, int64(l)); err == io.EOF && n > 0 {
+		return io.ErrUnexpectedEOF
+	} else {
+		return err
+	}
 }
